@@ -429,10 +429,10 @@ def entails(st, p, extra=()):
     if p.is_const():
         return p.cval() <= 0
     neg = (-p) + 1  # p >= 1  i.e. -p + 1 <= 0
-    cons0, _a = relevant(st, p.atoms(), extra=list(extra))
-    if bounds_prove(cons0, _as_con(p)):
+    cons, atoms = relevant(st, p.atoms(), extra=list(extra))
+    if bounds_prove(cons, _as_con(p)):
         return True
-    cons, atoms = relevant(st, p.atoms(), extra=list(extra) + [neg])
+    cons = cons + [_as_con(neg)]  # (its atoms are the goal's: already inside the cone)
     lem = product_lemmas(st, cons)
     return infeasible(cons + lem)
 
@@ -1582,6 +1582,10 @@ class Num:
                 if a2["k"] in ("init", "complit"):
                     self.init_struct(fk, a2, self.ty(a2), st)
                     continue
+                ft2 = self.ty(a2)
+                if ft2.get("rec") and not ft2.get("ptr"):
+                    self.copy_struct(fk, a, st)  # a record-valued initialiser: .view = other->view
+                    continue
                 v = self.val(a, st)
                 if v is not None:
                     st.env[fk] = v
@@ -1746,12 +1750,20 @@ class Num:
                 else:
                     if lk[0] in s1.env:
                         new_local[lk[1]] = (s1.env[lk[0]], s1.meta.get(lk[0]))
+            gone = set()
+            for lk in links:
+                # an exposed copy the callee invalidated (a store through the pointer it could not follow exactly):
+                # the caller's value of that local is stale too
+                if len(lk) == 2 and lk[0] not in s1.env:
+                    gone.add(lk[1])
             for lk in links:  # the exposed copies of address-taken locals go away with the callee's frame
                 if len(lk) == 3:
                     for k in list(s1.env):
                         if k.startswith(lk[0]):
                             del s1.env[k]
             for k, v in stash.items():
+                if k in gone:
+                    continue
                 s1.env[k] = v
                 if k in stash_meta:
                     s1.meta[k] = stash_meta[k]
@@ -1913,39 +1925,52 @@ class Num:
 
     def consume_only(self, callee_name, j, prefix):
         """does every path through the callee leave the cursor <param j>-><prefix> a suffix of what it was (len not larger,
-        ptr not smaller, ptr+len unchanged)?  Decided by NUM on the callee's body; memoised per program."""
+        ptr not smaller, ptr+len unchanged)?  Decided by NUM on the callee's body, for all cursor parameters / members its
+        write effects mention in one run; memoised per program."""
         memo = self.prog.__dict__.setdefault("_consume_only", {})
         key = (callee_name, j, prefix)
         if key in memo:
             return memo[key]
-        memo[key] = False  # recursion: not assumed
         g = self.prog.fns.get(callee_name)
-        ok = False
-        if g is not None and g.blocks and j < len(g.params) and getattr(self, "depth", 0) < 3:
+        E = self.prog.__dict__.get("_effects")
+        eff = E.of(callee_name) if (E is not None and g is not None) else None
+        want = set()
+        for it in (eff or ()):
+            if it[0] == "p" and it[3] == "aws_byte_cursor" and it[4] in ("len", "ptr") and len(it[2]) == 1:
+                want.add((it[1], it[2][0][:-3]))
+        want.add((j, prefix))
+        for w in want:
+            memo.setdefault((callee_name,) + w, False)  # recursion: not assumed
+        if g is not None and g.blocks and getattr(self, "depth", 0) < 3:
             sub = Num(g, self.prog, self.hooks, max_paths=20000)
             sub.track_progress = True
             sub.depth = getattr(self, "depth", 0) + 1
             st0 = State()
             if self.hooks is not None and hasattr(self.hooks, "entry"):
                 self.hooks.entry(sub, st0)
-            p = g.params[j]
-            b = sub.read({"k": "var", "n": p["n"], "sc": "param", "t": p["t"], "id": -1}, st0)
-            if b is not None:
-                base = "(" + repr(b) + ")->" + prefix
-                l0 = sub.field(st0, base + "len", "aws_byte_cursor", "len")
-                p0 = sub.field(st0, base + "ptr", "aws_byte_cursor", "ptr")
-                try:
-                    exits = sub.states_at({-1}, entry_state=st0).get(-1, [])
-                    ok = bool(exits)
-                    for s in exits:
-                        l1, p1 = s.env.get(base + "len"), s.env.get(base + "ptr")
-                        if l1 is None or p1 is None or not (entails(s, l1 - l0) and entails(s, p0 - p1) and entails(s, p1 + l1 - p0 - l0) and entails(s, p0 + l0 - p1 - l1)):
-                            ok = False
-                            break
-                except Limit:
-                    ok = False
-        memo[key] = ok
-        return ok
+            ent = {}
+            for (jj, pf) in sorted(want):
+                if jj >= len(g.params):
+                    continue
+                p = g.params[jj]
+                b = sub.read({"k": "var", "n": p["n"], "sc": "param", "t": p["t"], "id": -1}, st0)
+                if b is None:
+                    continue
+                base = "(" + repr(b) + ")->" + pf
+                ent[(jj, pf)] = (base, sub.field(st0, base + "len", "aws_byte_cursor", "len"), sub.field(st0, base + "ptr", "aws_byte_cursor", "ptr"))
+            try:
+                exits = sub.states_at({-1}, entry_state=st0).get(-1, [])
+            except Limit:
+                exits = []
+            for w, (base, l0, p0) in ent.items():
+                ok = bool(exits)
+                for s in exits:
+                    l1, p1 = s.env.get(base + "len"), s.env.get(base + "ptr")
+                    if l1 is None or p1 is None or not (entails(s, l1 - l0) and entails(s, p0 - p1) and entails(s, p1 + l1 - p0 - l0) and entails(s, p0 + l0 - p1 - l1)):
+                        ok = False
+                        break
+                memo[(callee_name,) + w] = ok
+        return memo[key]
 
     def _apply_effect_items(self, e, eff, st, fallback):
         fn = self.fn
